@@ -548,8 +548,18 @@ CURSOR_PROGRAMS = [
 ]
 
 
+# whole floats inside options (and options inside lists / objects) come back from JSON as ints: `as` converts them at every depth
+OPTION_FLOAT_PROGRAMS = [
+    ("fn main() {\n    let o = new { level: ?2.0, frac: ?2.5, plain: 4.0, items: [?1.0, none, ?0.5], deep: ?[?3.0], ob: ?new { x: 7.0 } };\n"
+     "    let b = o.to_json().parse_json() as { level: ?float, frac: ?float, plain: float, items: [?float], deep: ?[?float], ob: ?{ x: float } };\n"
+     "    println(b == o, o == b);\n    println(b.level, b.items, b.deep, b.ob.unwrap().x);\n"
+     "    let l = [?1.0, ?2.0];\n    let lb = l.to_json().parse_json() as [?float];\n    println(lb == l, lb);\n}",
+     "true true\nSome(2) [Some(1), none, Some(0.5)] Some([Some(3)]) 7\ntrue [Some(1), Some(2)]\n"),
+]
+
+
 def check_huge_floats(ctx):
-    progs = HUGE_FLOAT_PROGRAMS + CURSOR_PROGRAMS
+    progs = HUGE_FLOAT_PROGRAMS + CURSOR_PROGRAMS + OPTION_FLOAT_PROGRAMS
     go = core.go_lines("run", [f"(run (main {G.hexs(src)}))" for src, _ in progs], timeout=300)
     for (src, want), g in zip(progs, go):
         ctx.count(case_key=src, nontrivial=True)
@@ -568,7 +578,8 @@ def check_huge_floats(ctx):
             if not w or w[0] != "OK" or out != want:
                 ctx.violation(dict(rep, backend=be, go=parts.get(be, "")[:400]),
                               f"{be}: " + ("to_json / parse_json of floats beyond the int64 range does not give an equal value" if (src, want) in HUGE_FLOAT_PROGRAMS else
-                                           "a copy (loop snapshot, assignment, field read, argument) shares iteration state with its original")
+                                           ("a copy (loop snapshot, assignment, field read, argument) shares iteration state with its original" if (src, want) in CURSOR_PROGRAMS else
+                                            "JSON round trip of whole floats inside options through `as`"))
                               + f" ({out!r}, expected {want!r})")
 
 
